@@ -157,10 +157,10 @@ inline EdgeOut geod_edge_between(const Env& env, Ctx& c, const RV& A, const RV& 
   }
   if (A.lat == B.lat && lon12 == 0) { o.st = E_OK; o.certified = true; return o; }
   // regimes of two known GeodesicExact inverse defects (C02): strongly prolate (f < -0.2), both latitudes within 1e-3 deg of the equator and the
-  // longitudes more than 170 deg apart (errors from 0.1 mm at |lat| = 1e-4 deg to thousands of km at 1e-16 deg; none seen at <= 170 deg or
-  // |lat| >= 1e-3 deg); strongly oblate (f > 0.5), both latitudes within 1e-8 deg of the equator.  Never when both latitudes are exactly 0.
+  // longitudes more than 120 deg apart (errors from 0.1 mm at |lat| = 1e-4 deg to thousands of km at 1e-17 deg, where it reaches down to
+  // 150 deg of longitude difference; none seen at <= 120 deg or |lat| >= 1e-3 deg); strongly oblate (f > 0.5), both latitudes within 1e-8 deg of the equator.  Never when both latitudes are exactly 0.
   { double mx = std::max(std::fabs(A.lat), std::fabs(B.lat)); bool both0 = A.lat == 0 && B.lat == 0;
-    o.preq = !both0 && ((env.f < -0.2 && mx < 1e-3 && fabsl(lon12) > 170) || (env.f > 0.5 && mx < 1e-8)); }
+    o.preq = !both0 && ((env.f < -0.2 && mx < 1e-3 && fabsl(lon12) > 120) || (env.f > 0.5 && mx < 1e-8)); }
   // seeds: library GeodesicExact (hint only; every candidate is verified by the reference direct solution)
   double s12, azi1, azi2, m12, M12, M21, S12;
   double a12 = env.S->exact->GenInverse(A.lat, A.lon, B.lat, B.lon, GeodesicExact::DISTANCE | GeodesicExact::AZIMUTH, s12, azi1, azi2, m12, M12, M21, S12);
@@ -214,7 +214,11 @@ inline EdgeOut geod_edge_between(const Env& env, Ctx& c, const RV& A, const RV& 
     o.I += -sx * d; o.dlam += d;
   }
   o.lenscale = std::max<LD>(1, o.len / env.half_circ);
-  if (o.a12 > 90 && o.a12 < 180) o.cond = std::max<LD>(1, tanl(o.a12 * D / 2));
+  // conditioning of the edge's area: an end-point error d turns the edge by d/m12 and sweeps (d/m12) * int m ds ~ d R (1 - cos sigma12)/|m12|
+  // (= d R tan(sigma12/2) on a sphere); m12 is the reference reduced length, so focusing by the ellipsoid is accounted for
+  if (o.a12 > 90) { LD Rm = std::max<LD>(env.a, env.b), m = fabsl(best.m12);
+    LD cs = Rm * (1 - cosl(o.a12 * D)) / (m > 0 ? m : (LD)1e-300), ct = o.a12 < 180 ? tanl(o.a12 * D / 2) : (LD)1e300;
+    o.cond = std::max<LD>(1, std::max(cs, std::min(ct, cs * 4))); }
   o.st = E_OK; return o;
 }
 
